@@ -847,8 +847,9 @@ class OpOperands(Sequence[SSAValue]):
         operand_uses = self._op._operand_uses  # pyright: ignore[reportPrivateUsage]
         operands[idx].remove_use(operand_uses[idx])
         operand.add_use(operand_uses[idx])
-        new_operands = SSAValues((*operands[:idx], operand, *operands[idx + 1 :]))
-        self._op._operands = new_operands  # pyright: ignore[reportPrivateUsage]
+        new_operands = list(operands)
+        new_operands[idx] = operand
+        self._op._operands = SSAValues(new_operands)  # pyright: ignore[reportPrivateUsage]
 
     def __iter__(self) -> Iterator[SSAValue]:
         return iter(self._op._operands)  # pyright: ignore[reportPrivateUsage]
@@ -2122,8 +2123,9 @@ class OpSuccessors(Sequence[Block]):
         successor_uses = self._op._successor_uses  # pyright: ignore[reportPrivateUsage]
         successors[idx].remove_use(successor_uses[idx])
         successor.add_use(successor_uses[idx])
-        new_successors = (*successors[:idx], successor, *successors[idx + 1 :])
-        self._op._successors = new_successors  # pyright: ignore[reportPrivateUsage]
+        new_successors = list(successors)
+        new_successors[idx] = successor
+        self._op._successors = tuple(new_successors)  # pyright: ignore[reportPrivateUsage]
 
     def __iter__(self) -> Iterator[Block]:
         return iter(self._op._successors)  # pyright: ignore[reportPrivateUsage]
